@@ -173,7 +173,8 @@ def build(p):
             taps.append(tap)
             main_param = {"retry": ly.get("max", 3), "throttle": -1 if ly.get("count", 2) is None else ly.get("count", 2),
                           "timeout": ly.get("T", 10 ** 6)}.get(t, -1)
-            E.emit("Layer", k=i, s=t, a=main_param, b=ly.get("sleep", -1), c=1 if ly.get("block") else 0,
+            E.emit("Layer", k=i, s=t, a=main_param, b=ly.get("sleep", -1),
+                   c=7 if ly.get("policy") else (1 if ly.get("block") else 0),
                    xs=[{"tag": 1, "raise": 2, "reraise": 3, "nonfuture": 4, "later": 5, None: 0}[ly.get("fn")],
                        {"tag": 1, "raise": 2, "reraise": 3, None: 0}[ly.get("efn")],
                        {"first": 1, "second": 2, "raise1": 3, None: 0}[ly.get("mode")]])
@@ -182,11 +183,40 @@ def build(p):
                                         name=nm)
             elif t == "flat_map":
                 ex = Executors.with_flat_map(tap, mk_flat_fn(i, ly.get("fn")), name=nm)
+            elif t == "retry" and ly.get("policy"):
+                from more_executors import ExceptionRetryPolicy
+
+                class Faulty(ExceptionRetryPolicy):
+                    def should_retry(self, attempt, future):
+                        if ly["policy"] == "raise_should":
+                            E.emit("FnCall", k=i, s="policy:should_retry")
+                            raise LayerError(i, "should_retry")
+                        return ExceptionRetryPolicy.should_retry(self, attempt, future)
+
+                    def sleep_time(self, attempt, future):
+                        if ly["policy"] == "raise_sleep":
+                            E.emit("FnCall", k=i, s="policy:sleep_time")
+                            raise LayerError(i, "sleep_time")
+                        return ExceptionRetryPolicy.sleep_time(self, attempt, future)
+
+                ex = Executors.with_retry(tap, retry_policy=Faulty(max_attempts=ly.get("max", 3), sleep=ly.get("sleep", 100) / 1000.0,
+                                                                   exponent=1, max_sleep=10, exception_base=H.UserError), name=nm)
             elif t == "retry":
                 ex = Executors.with_retry(tap, max_attempts=ly.get("max", 3), sleep=ly.get("sleep", 100) / 1000.0,
                                           exponent=1, max_sleep=10, exception_base=H.UserError, name=nm)
             elif t == "poll":
                 ex = Executors.with_poll(tap, mk_poll(i, ly.get("mode", "first")), default_interval=0.2, name=nm)
+            elif t == "throttle" and ly.get("count_fn"):
+                ncalls = [0]
+
+                def count_fn(i=i):
+                    ncalls[0] += 1
+                    if ncalls[0] >= 2 and ncalls[0] % 2 == 0:
+                        E.emit("FnCall", k=i, s="count:raise")
+                        raise LayerError(i, "count")
+                    return ly.get("count", 2)
+
+                ex = Executors.with_throttle(tap, count_fn, block=bool(ly.get("block")), name=nm)
             elif t == "throttle":
                 ex = Executors.with_throttle(tap, ly.get("count", 2), block=bool(ly.get("block")), name=nm)
             elif t == "timeout":
@@ -250,6 +280,11 @@ def build(p):
                 state["futs"][j] = fut
                 if sb.get("cb"):
                     H.add_cb(fut, j, 1)
+                if sb.get("cb_raise"):
+                    def bad_cb(f_):
+                        E.emit("FnCall", k=0, s="cb:raise")
+                        raise LayerError(0, "callback")
+                    fut.add_done_callback(bad_cb)
                 if sb.get("nested_cb"):
                     def ncb(f_, j=j):
                         pf = H.do_submit(top, 200 + j, H.Scripted(200 + j, [("V", Val((200 + j, 1)))]))
